@@ -442,7 +442,8 @@ type Derived struct {
 	BodyFails              bool
 	MimeTab                [][2]string // mime.TypeByExtension on every extension in the tree and the request path
 	Sniffed                string      // http.DetectContentType of the addressed file
-	WriteLimit             int         // > 0: no file can grow beyond that many bytes (RLIMIT_FSIZE) while the request is served
+	WriteLimit             int         // > 0: no file can grow beyond that many bytes (RLIMIT_FSIZE) while the request is served; -1: the sandbox was changed by someone else while the body was read (Race)
+	RaceBefore             *Node       // Race: the tree before, with the other party's change applied
 }
 
 func optS(p *string) string {
@@ -589,6 +590,7 @@ type Sandbox struct {
 	Dir     string // the sandbox top on disk
 	RootRel []string
 	noSnap  bool
+	raced   bool   // the Race action of the request being served has run
 	Spell   string // how the root is written in the configuration ("" = clean)
 	Handler *webdav.Handler
 	FS      webdav.LocalFileSystem
@@ -791,6 +793,7 @@ func (s *Sandbox) Do(r Req, before *Node) (Derived, Obs, *Node) {
 		rootDir := filepath.Join(append([]string{s.Dir}, s.RootRel...)...)
 		target := filepath.Join(rootDir, filepath.FromSlash(r.Path))
 		body = &probeReader{r: body, look: func() {
+			s.raced = true
 			switch r.Race {
 			case "rmparent":
 				os.RemoveAll(filepath.Dir(target))
@@ -882,6 +885,12 @@ func (s *Sandbox) Do(r Req, before *Node) (Derived, Obs, *Node) {
 	if !s.noSnap {
 		after = Snapshot(s.Dir)
 	}
+	if r.Race != "" && s.raced {
+		// judged by the property's statement only, against the tree as the other party left it
+		d.WriteLimit = -1
+		d.RaceBefore = applyRace(before, s.RootRel, r)
+	}
+	s.raced = false
 	if o.Panic {
 		return d, o, after
 	}
@@ -941,7 +950,86 @@ func (s *Sandbox) DoNoSnapshot(r Req) (Derived, Obs, *Node) {
 	return s.Do(r, Dir())
 }
 
+// applyRace is what the other party of a Race does, applied to the tree in memory.
+func applyRace(before *Node, rootRel []string, r Req) *Node {
+	t := before.Clone()
+	segs := append([]string{}, rootRel...)
+	for _, sg := range strings.Split(strings.Trim(path.Clean(r.Path), "/"), "/") {
+		if sg != "" {
+			segs = append(segs, sg)
+		}
+	}
+	walkTo := func(segs []string) *Node {
+		cur := t
+		for _, sg := range segs {
+			if cur == nil || !cur.IsDir {
+				return nil
+			}
+			cur = cur.Kids[sg]
+		}
+		return cur
+	}
+	del := func(parent *Node, name string) {
+		if parent == nil || !parent.IsDir || parent.Kids[name] == nil {
+			return
+		}
+		delete(parent.Kids, name)
+		var ns []string
+		for _, k := range parent.Names {
+			if k != name {
+				ns = append(ns, k)
+			}
+		}
+		parent.Names = ns
+	}
+	if len(segs) == 0 {
+		return t
+	}
+	name := segs[len(segs)-1]
+	parent := walkTo(segs[:len(segs)-1])
+	switch r.Race {
+	case "rmparent":
+		if len(segs) >= 2 {
+			del(walkTo(segs[:len(segs)-2]), segs[len(segs)-2])
+		}
+	case "mkdirtarget":
+		if parent != nil && parent.IsDir {
+			if k := parent.Kids[name]; k == nil || !k.IsDir {
+				parent.Put(name, Dir())
+			}
+		}
+	case "mkdirfull":
+		if parent != nil && parent.IsDir {
+			if k := parent.Kids[name]; k == nil || !k.IsDir {
+				parent.Put(name, Dir())
+			}
+			parent.Kids[name].Put("member", File("m"))
+		}
+	case "filetarget":
+		if parent != nil && parent.IsDir {
+			if k := parent.Kids[name]; k == nil || !k.IsDir {
+				parent.Put(name, File("raced"))
+			}
+		}
+	case "parentfile":
+		if len(segs) >= 2 {
+			gp := walkTo(segs[:len(segs)-2])
+			if gp != nil && gp.IsDir {
+				gp.Put(segs[len(segs)-2], File("now a file"))
+			}
+		}
+	case "rmroot":
+		if len(rootRel) > 0 {
+			del(walkTo(rootRel[:len(rootRel)-1]), rootRel[len(rootRel)-1])
+		}
+	}
+	return t
+}
+
 // Line renders one case.
 func Line(s *Sandbox, before *Node, r Req, d Derived, o Obs, after *Node) string {
+	if d.RaceBefore != nil {
+		before = d.RaceBefore
+	}
 	return strings.Join([]string{s.RootSx(), hx.L("tree", before.Sx()), r.Sx(), d.Sx(), o.Sx(), hx.L("after", after.Sx())}, " ")
 }
